@@ -1,8 +1,54 @@
-import Ypv.Drv.Codec
-/-! Driver handler for C18 (stub: replaced by the module that models C18) -/
+import Ypv.Drv.C05
+import Ypv.Model.MultiDoc
+/-! Driver handler for C18 (multi-document merges), the pairwise merge being C05's `mergeWith cfg`.
+
+* `C18.docs` `{"mode": "condense_all"|"merge_across"|"matrix_merge", "lhs": [doc], "rhs": [doc]|null, "cfg": CFG}`
+* `C18.main` `{"mode": …, "files": [[doc]], "cfg": CFG}`
+
+answer `{"docs": [doc], "state": n}` | `{"err": class}` (an exception the functions do not catch) |
+`{"err": "crash:IndexError"}` (empty left-hand stream under CONDENSE_ALL).
+-/
 namespace Ypv.Drv.C18
 open Lean (Json)
+open Ypv Ypv.Drv Ypv.Merge Ypv.MultiDoc
 
-def handle (_op : String) (_j : Json) : Except String Json := throw "C18: driver not implemented yet"
+def clsOf : MErr → Cls
+  | .merge => .merge
+  | _ => .other
+
+def modeOf : String → Except String Mode
+  | "condense_all" => pure .condenseAll
+  | "merge_across" => pure .mergeAcross
+  | "matrix_merge" => pure .matrixMerge
+  | s => throw s!"mode {s}"
+
+def docsOf (j : Json) : Except String (List Node) :=
+  match j with
+  | .arr xs => xs.toList.mapM nodeOfJson
+  | _ => throw "document list expected"
+
+def outJson : Option (Except MErr Out) → Json
+  | none => Json.mkObj [("err", "crash:IndexError")]
+  | some (.error e) => Json.mkObj [("err", Ypv.Drv.C05.merrToJson e)]
+  | some (.ok o) => Json.mkObj [("docs", Json.arr (o.docs.map nodeToJson).toArray),
+                                ("state", Json.num (Lean.JsonNumber.fromNat o.state))]
+
+def handle (op : String) (j : Json) : Except String Json := do
+  let mode ← modeOf (← getStr j "mode")
+  let cfg ← Ypv.Drv.C05.getCfg j
+  match op with
+  | "docs" =>
+    let lhs ← docsOf (← j.getObjVal? "lhs")
+    let rhs ← match j.getObjVal? "rhs" with
+      | .ok .null => pure none
+      | .ok r => (docsOf r).map some
+      | .error e => throw e
+    pure (outJson (mergeDocs (mergeWith cfg) clsOf mode lhs rhs))
+  | "main" =>
+    let files ← match j.getObjVal? "files" with
+      | .ok (.arr xs) => xs.toList.mapM docsOf
+      | _ => throw "files: list of document lists expected"
+    pure (outJson (mainRun (mergeWith cfg) clsOf mode files))
+  | _ => throw s!"C18: unknown op {op}"
 
 end Ypv.Drv.C18
